@@ -188,8 +188,10 @@ func (c *Channel) Close() error {
 
 	simhook.Yield("chan.close.begin")
 
-	close(c.Errs)
-
+	// note: Errs is deliberately not closed here -- the read loop may be (or be about to start)
+	// sending a transport error on it, and a send on a closed channel panics in that goroutine; a
+	// second Close would also panic closing it again. once the read loop has exited Read reports
+	// a connection error instead.
 	ch := make(chan struct{})
 
 	simhook.Yield("chan.close.flag")
